@@ -126,6 +126,7 @@ let parse_obs toks : obs =
   | ["c"; "none"] -> OCall (RCtx None)
   | ["c"; t; s; b] -> OCall (RCtx (Some ((nh t, nh s), b = "1")))
   | ["panic"] -> OPanic N0
+  | ["not-enabled"] -> OBad (n_of_int 99)
   | "recs" :: k :: rest -> let (rs, _) = take_records (int_of_string k) rest [] in OCall (RRecords rs)
   | "rep" :: k :: rest ->
     let (rs, rest) = take_records (int_of_string k) rest [] in
@@ -142,7 +143,8 @@ type rlevel = RFull | RCore | RIds | RNone
 type proj = { reports : rlevel; stats : bool; ctxs : bool; bools : bool; recs : bool }
 
 let proj_of = function
-  | "C01" | "C03" | "C04" | "C09" -> { reports = RCore; stats = false; ctxs = false; bools = false; recs = false }
+  | "C04" -> { reports = RFull; stats = false; ctxs = false; bools = false; recs = false }
+  | "C01" | "C03" | "C09" -> { reports = RCore; stats = false; ctxs = false; bools = false; recs = false }
   | "C02" -> { reports = RIds; stats = false; ctxs = false; bools = false; recs = false }
   | "C05" -> { reports = RCore; stats = false; ctxs = true; bools = false; recs = false }
   | "C06" | "C10" | "C13" | "C14" | "C15" -> { reports = RFull; stats = false; ctxs = true; bools = true; recs = false }
